@@ -25,16 +25,41 @@ def tier_cfg(tier):
     return c01.tier_cfg(tier)
 
 
+def run_one_threads(tape, cfg, out):
+    from sim import schedthreads as st
+
+    spec, tcfg, clients, reqs = c01.gen_threads_workload(tape, cfg)
+    vals, calls, deps = gg.evaluate(spec)
+    obs_list, sched = st.run_threads(tape, spec, clients, tcfg)
+    needs = [gg.needed(spec, c["request"], deps) for c in clients]
+    c01.threads_outcome(out, obs_list, sched, spec, reqs, tcfg, [len(n) for n in needs])
+    for i, (obs, c) in enumerate(zip(obs_list, clients)):
+        for k, v in obs.rec.probes.items():
+            out.probe(k, v)
+        retention_oracle(out, obs, c["request"], deps, needs[i], "threads")
+        if out.status == "violation":
+            out.message = f"client {i}: " + out.message
+            break
+    return out
+
+
 def run_one(tape, cfg):
     out = Outcome()
+    if c01.use_threads(tape, cfg):
+        return run_one_threads(tape, cfg, out)
     spec, req_json, request, rcfg = c01.gen_workload(tape, cfg)
     vals, calls, deps = gg.evaluate(spec)
     needed = gg.needed(spec, request, deps)
     obs = sr.run_graph(tape, spec, request, rcfg)
     c01.base_outcome(out, obs, spec, req_json, rcfg, needed)
+    out.nontrivial = out.nontrivial and bool(obs.rec.probes.get("released_some"))
+    return retention_oracle(out, obs, request, deps, needed, rcfg["entry"])
+
+
+def retention_oracle(out, obs, request, deps, needed, entry):
     rec = obs.rec
     requested = set(gg.flatten_request(request))
-    out.nontrivial = out.nontrivial and bool(rec.probes.get("released_some"))
+    rcfg = {"entry": entry}
     # a requested key that other needed tasks depend on
     if any(deps[k] & requested for k in needed):
         out.probe("requested_intermediate")
